@@ -873,6 +873,37 @@ func main() {
 				checks += r.n
 				rep.Inc("passphrase_behaviours_on_manager", 1)
 			}
+		case "mgrconc":
+			if *workers > 1 {
+				rep.AddError("trace %d: mode mgrconc needs -workers 1 (the gate hook is a package variable)", idx)
+				return
+			}
+			p := <-pool
+			checks += replayMgrConc(idx, &tr, p.unlocked, rep)
+			pool <- p
+			rep.Inc("manager_concurrency_behaviours", 1)
+			// non-trivial: a Lock is called while the worker is inside the section
+			inSection, raced := false, false
+			for i := range tr.Steps {
+				switch tr.Steps[i].Op {
+				case "Begin":
+					inSection = retString(&tr.Steps[i]) == "parked"
+				case "Finish":
+					inSection = false
+				case "LockCall":
+					if inSection {
+						raced = true
+					}
+				}
+			}
+			if raced {
+				rep.Nontriv(string(line))
+				if len(tr.Steps) >= 4 {
+					rep.Sample(json.RawMessage(line))
+				}
+			}
+			rep.Count(1, len(tr.Steps), checks)
+			return
 		default:
 			rep.AddError("trace %d: unknown mode %q", idx, tr.Mode)
 			return
